@@ -465,7 +465,14 @@ impl<'a> LifeModel<'a> {
                 let to = 1 - s.g(*slot).owner;
                 // the destination token account must exist (idempotent ATA creation, as a preceding instruction would do)
                 if l.get(&k.mint).is_some() {
-                    let _ = svm::process_builtin(&mut l, &lw::ix_create_ata_idempotent(w, &w.owners[to], &k.mint, &T22));
+                    if to == 1 {
+                        // owner B's side is a plain Token-2022 account without extensions (see slot_keys)
+                        if l.get(&k.ta[1]).is_none() {
+                            world::create_token_account(&mut l, k.ta[1], k.mint, w.owners[1], 0);
+                        }
+                    } else {
+                        let _ = svm::process_builtin(&mut l, &lw::ix_create_ata_idempotent(w, &w.owners[to], &k.mint, &T22));
+                    }
                 }
                 svm::process(&mut l, &lw::ix_transfer_locked(w, &self.posref(s, *slot), k.lock_cfg, k.ta[to]))
             }
